@@ -65,6 +65,45 @@ def is_coupling(pairs, n2, n1):
     return None
 
 
+# long shapes: heights of the two tracks and the indices of the symbolic heights (each within +-0.375 of the listed value; the last observations, so that
+# only the last row and column of the coupling lattice carry symbolic costs)
+LONG = {
+    'wait': ([0.0] * 10 + [5.0, 10.0], [0.0, 5.0] + [10.0] * 10, 11, 11),          # one vehicle waits at the start, the other at the end: the optimal coupling strays 10 cells from the diagonal
+    'fan':  ([0.0, 5.0, 10.0], [0.0, 0.5, 1.0, 1.5, 2.0, 2.5, 3.0, 6.0, 9.0, 10.0], 2, 9),      # a coarse track against a dense one
+    'one':  ([3.0], [1.0, 2.0, 3.0, 4.0, 5.0, 6.0, 7.0], 0, 6),
+    'wait15': ([1.0] * 11 + [4.0, 7.0, 9.0], [1.0, 3.0, 4.0, 7.0] + [9.0] * 11, 13, 14),
+    'hill': ([float(min(i, 16 - i)) for i in range(17)], [float(min(2 * i, 18 - 2 * i)) for i in range(10)], 16, 9),
+}
+
+
+def dp_opt(d, n2, n1, p):
+    """independent dynamic programme over the coupling lattice: optimal accumulated cost as a float or a z3 term"""
+    def mn(a, b):
+        if not (z3.is_expr(a) or z3.is_expr(b)):
+            return min(a, b)
+        a, b = (a if z3.is_expr(a) else z3.RealVal(repr(a))), (b if z3.is_expr(b) else z3.RealVal(repr(b)))
+        return z3.If(a <= b, a, b)
+
+    def mx(a, b):
+        if not (z3.is_expr(a) or z3.is_expr(b)):
+            return max(a, b)
+        a, b = (a if z3.is_expr(a) else z3.RealVal(repr(a))), (b if z3.is_expr(b) else z3.RealVal(repr(b)))
+        return z3.If(a >= b, a, b)
+    w = lambda v: v if p in (1, 'inf') else v * v
+    D = {}
+    for i in range(n2):
+        for j in range(n1):
+            prev = [D[q] for q in ((i - 1, j), (i, j - 1), (i - 1, j - 1)) if q in D]
+            if not prev:
+                D[(i, j)] = w(d[(i, j)])
+                continue
+            best = prev[0]
+            for q in prev[1:]:
+                best = mn(best, q)
+            D[(i, j)] = mx(best, w(d[(i, j)])) if p == 'inf' else best + w(d[(i, j)])
+    return D[(n2 - 1, n1 - 1)]
+
+
 class C18(Check):
     id = 'C18'
     title = 'Time-warping cost is the optimal coupling cost and the matching realises it'
@@ -108,6 +147,16 @@ class C18(Check):
             for mode in ('DTW', 'FDTW'):
                 js.append(dict(kind='dtw', n1=n1, n2=n2, mode=mode, p=1, dist='heights', again=True))
         js.sort(key=lambda j: -(j['n1'] * j['n2'] * (3 if j['mode'] == 'FDTW' else 1)))
+        # scale probes: long tracks with fixed heights (stationary phases, coarse against dense) and two symbolic heights; the oracle is an independent dynamic programme
+        for shape in (('wait', 'fan', 'one') if tier == 'quick' else sorted(LONG)):
+            for mode in ('DTW', 'FDTW'):
+                for p in (1, 'inf'):
+                    for swap in (False, True):
+                        if tier == 'quick' and (swap and p == 'inf'):
+                            continue
+                        js.append(dict(kind='long', shape=shape, mode=mode, p=p, swap=swap, n1=0, n2=0))
+            if tier != 'quick':
+                js.append(dict(kind='long', shape=shape, mode='FRECHET', p='inf', swap=False, n1=0, n2=0))
         return js
 
     def patches(self, job):
@@ -149,7 +198,85 @@ class C18(Check):
         mode = dict(DTW=cmp_.MODE_MATCHING_DTW, FDTW=cmp_.MODE_MATCHING_FDTW, FRECHET=cmp_.MODE_MATCHING_FRECHET)[job['mode']]
         return cmp_.match(t1, t2, mode=mode, p=p, dim=dim, verbose=False, plot=False)
 
+    def _long_inputs(self, eng, job, concrete=None):
+        h1, h2, k1, k2 = LONG[job['shape']]
+        h1, h2 = list(h1), list(h2)
+        if concrete is None:
+            h1[k1] = eng.real('a', h1[k1] - 0.375, h1[k1] + 0.375)
+            h2[k2] = eng.real('b', h2[k2] - 0.375, h2[k2] + 0.375)
+        else:
+            h1[k1], h2[k2] = float(concrete['a']), float(concrete['b'])
+        if job['swap']:
+            h1, h2 = h2, h1
+        n1, n2 = len(h1), len(h2)
+        t1, t2 = build_tracks(n1, n2, h1, h2)
+        d = {}
+        for i in range(n2):
+            for j in range(n1):
+                a, b = h1[j], h2[i]
+                if core.is_sym(a) or core.is_sym(b):
+                    e = zreal(a) - zreal(b)
+                    d[(i, j)] = z3.If(e >= 0, e, -e)
+                else:
+                    d[(i, j)] = abs(a - b)
+        return t1, t2, d, n1, n2
+
+    def _long_path(self, ctx, job):
+        eng = ctx.eng
+        t1, t2, d, n1, n2 = self._long_inputs(eng, job)
+        try:
+            m = self._run(job, t1, t2, 1)
+        except Exception as e:
+            ctx.fail('match raised %s' % type(e).__name__)
+            return
+        ctx.reach()
+        pairs = [(i, j) for j in range(n1) for i in m.getObsAnalyticalFeature('pair', j)]
+        ctx.observe(score=m.score, npairs=len(pairs))
+        p = job['p']
+        best = dp_opt(d, n2, n1, p)
+        best = best if z3.is_expr(best) else z3.RealVal(repr(best))
+        tol = z3.Q(1, 10 ** 9)
+        score = zreal(m.score)
+        if not ctx.prove(z3.And(score - best <= tol, best - score <= tol), 'long tracks: the score equals the optimal coupling cost (independent dynamic programme)'):
+            return
+        bad = is_coupling(pairs, n2, n1)
+        if bad:
+            ctx.fail('long tracks: ' + bad)
+            return
+        if m.nb_links != len(pairs):
+            ctx.fail('nb_links differs from the number of pairs')
+            return
+        ts = [d[ij] if z3.is_expr(d[ij]) else z3.RealVal(repr(d[ij])) for ij in sorted(pairs)]
+        acc = zmax(ts) if p == 'inf' else z3.Sum([t * t for t in ts] if p == 2 else ts)
+        ctx.prove(z3.And(acc - score <= tol, score - acc <= tol), 'long tracks: the accumulated cost of the returned matching equals the reported score')
+
+    def _long_concrete(self, job, inp):
+        t1, t2, d, n1, n2 = self._long_inputs(None, job, concrete=inp)
+        try:
+            m = self._run(job, t1, t2, 1)
+        except Exception as e:
+            return dict(violation='match raised %s: %s' % (type(e).__name__, e))
+        p = job['p']
+        pairs = [(i, j) for j in range(n1) for i in m.getObsAnalyticalFeature('pair', j)]
+        out = dict(score=float(m.score), npairs=len(pairs))
+        best = dp_opt(d, n2, n1, p)
+        desc = '%s %s p=%s on tracks of %d and %d observations' % (job['shape'], job['mode'], p, n1, n2)
+        if abs(m.score - best) > 1e-9 * max(1.0, abs(best)):
+            return dict(violation='%s: score %r, optimal coupling cost %r' % (desc, float(m.score), best), outputs=out)
+        bad = is_coupling(pairs, n2, n1)
+        if bad:
+            return dict(violation='%s: %s: pairs %r' % (desc, bad, pairs), outputs=out)
+        if m.nb_links != len(pairs):
+            return dict(violation='%s: nb_links %r != %d pairs' % (desc, m.nb_links, len(pairs)), outputs=out)
+        ts = [d[ij] for ij in sorted(pairs)]
+        acc = max(ts) if p == 'inf' else sum(t ** p for t in ts)
+        if abs(acc - m.score) > 1e-9 * max(1.0, abs(acc)):
+            return dict(violation='%s: the matching accumulates %r but the reported score is %r' % (desc, acc, float(m.score)), outputs=out)
+        return dict(violation=None, outputs=out)
+
     def path(self, ctx, job):
+        if job['kind'] == 'long':
+            return self._long_path(ctx, job)
         eng = ctx.eng
         n1, n2 = job['n1'], job['n2']
         t1, t2, d, dim = self._inputs(eng, job)
@@ -179,6 +306,8 @@ class C18(Check):
         ctx.prove(acc_cost(sorted(pairs), d, p) == score, 'accumulated cost of the returned matching equals the reported score')
 
     def concrete(self, job, inp):
+        if job['kind'] == 'long':
+            return self._long_concrete(job, inp)
         n1, n2 = job['n1'], job['n2']
         t1, t2, d, dim = self._inputs(None, job, concrete=inp)
         try:
